@@ -22,14 +22,34 @@ PROVED = {
     'KeyMaxLt': ('block', 'KeyMaxLt'), 'Counters': ('block', 'Counters'), 'CreatorStats': ('block', 'CreatorStats'),
     'ValidatorInfo': ('block', 'ValidatorInfo'), 'ShardIdent': ('block', 'ShardIdent'), 'GlobalVersion': ('block', 'GlobalVersion'),
     'SplitMergeInfo': ('transaction', 'SplitMergeInfo'), 'SigPubKey': ('config', 'SigPubKey'),
+    'AccStatusChange': ('transaction', 'AccStatusChange'), 'ComputeSkipReason': ('transaction', 'ComputeSkipReason'),
+    'TrStoragePhase': ('transaction', 'TrStoragePhase'), 'TrComputePhase': ('transaction', 'TrComputePhase'),
+    'TrBouncePhase': ('transaction', 'TrBouncePhase'), 'FutureSplitMerge': ('block', 'FutureSplitMerge'),
+    'IntermediateAddress': ('transaction', 'IntermediateAddress'), 'ValidatorDescr': ('config', 'ValidatorDescr'),
+    'CatchainConfig': ('config', 'CatchainConfig'),
 }
+# theorem(s) of a class that is not in the driver's class table (extra parameter)
+EXTRA_THEOREMS = {'BlkPrevInfo': 'c16_src_BlkPrevInfo0, c16_src_BlkPrevInfo1'}
+# regenerated and checked against the spec value on generated inputs (driver), no theorem
+CHECKED_ONLY = {'TrActionPhase': ('transaction', 'TrActionPhase')}
+
+
+def label(cls):
+    if cls in PROVED:
+        return f'parser {cls} (c16_src_{cls})'
+    if cls in EXTRA_THEOREMS:
+        return f'parser {cls} ({EXTRA_THEOREMS[cls]})'
+    return f'parser {cls} (regenerated; no theorem)'
+
+
+def live(ctx, table):
+    return [c for c in table if (ctx.tie.get(label(c)) or {}).get('status') == 'ok']
 
 
 def translator_entries():
     out = [('tlb/*.py deserialize -> Generated/TlbParsers.lean', TP.regenerate)]
     for _, cls in TP.CLASSES:
-        out.append((f'parser {cls}' + (f' (c16_src_{cls})' if cls in PROVED else ' (regenerated, validated; no theorem yet)'),
-                    TP.class_tie(cls)))
+        out.append((label(cls), TP.class_tie(cls)))
     return out
 
 
@@ -80,6 +100,8 @@ def mismatch(lean, py, path='', top=True):
             return f'{path}: Lean object {name}, library {type(py).__name__}'
         for k, x in v.items():
             if not hasattr(py, k):
+                if x is None:
+                    continue        # a constructor argument None that __init__ does not store for this alternative
                 return f'{path}.{k}: the library object has no attribute {k}'
             m = mismatch(x, getattr(py, k), f'{path}.{k}', False)
             if m:
@@ -109,7 +131,7 @@ def dag_str(nodes):
 def validate(ctx, n=12):
     """translator validation on generated cells of every class that has a spec type"""
     import json
-    ok_classes = [c for c in PROVED if (ctx.tie.get(f'parser {c} (c16_src_{c})') or {}).get('status') == 'ok']
+    ok_classes = live(ctx, list(PROVED) + list(CHECKED_ONLY))
     items = list(_gen(ctx, ok_classes, n))
     lines = [f'tlbsrc {c} {dag_str(g["nodes"])} {len(g["nodes"]) - 1}' for c, s, good, g in items]
     outs = ctx.model.run(lines) if lines else []
@@ -145,14 +167,14 @@ def validate(ctx, n=12):
 def theorem_check(ctx, check_value, P, n=6):
     """`c16_src_<T>` evaluated on generated values; the values on which it is false go to the property's oracle"""
     n = 150 if ctx.search else n
-    classes = [c for c in PROVED if (ctx.tie.get(f'parser {c} (c16_src_{c})') or {}).get('status') == 'ok']
+    classes = live(ctx, list(PROVED) + list(CHECKED_ONLY))
     found = 0
     for c, s, good, g in _gen(ctx, classes, n):
         ctx.count('src_theorem_evaluated')
         if good:
             continue
         ctx.count(f'src_theorem_false:{c}')
-        ty = PROVED[c][1]
+        ty = (PROVED.get(c) or CHECKED_ONLY[c])[1]
         if found < 40 and ty in P:
             found += 1
             if check_value(ctx, P, ty, s, g, tag='src'):
